@@ -141,12 +141,13 @@ class Contract:
         for exc_cls, cond, exc_val in self.may_raise(A, I):
             if I.p.branch(cond, f"raises@{label}:{exc_cls.__name__}"):
                 raise PyRaise(exc_val)
-        res = I.p.fresh("ret_" + label.split(".")[-1])
+        rt = getattr(self, "result_term", None)
+        res = rt(A) if rt is not None else I.p.fresh("ret_" + label.split(".")[-1])
         finals = {}
         for m in self.mutates:
             finals[m] = I.p.fresh("final_" + m)
             A["final_" + m] = finals[m]
-        post = self.ensures(A, res)
+        post = self.ensures(A, res) if rt is None or self.mutates else {}
         for k, f in (post.items() if isinstance(post, dict) else [("post", post)]):
             I.p.assume(f)
         for m, t in finals.items():
